@@ -715,4 +715,270 @@ Proof.
 Qed.
 End EuclPart.
 
+(* ============================================================================================================ *)
+(* Part 2e — approval domains (C05): checkers and reference deciders under renaming                             *)
+Section ApprovalPart.
+Import PrefVerif.Model.C1P PrefVerif.Model.Approval.
+
+Lemma amem_f a l : mem (f a) (map f l) = mem a l.
+Proof. apply mem_f. Qed.
+
+Lemma count_f a l : count (f a) (map f l) = count a l.
+Proof.
+  unfold count. rewrite filter_map_comm, map_length. f_equal. apply filter_ext'. intros x. apply eqb_f.
+Qed.
+
+Lemma perm_of_relabel alts order : perm_of (map f alts) (map f order) = perm_of alts order.
+Proof.
+  unfold perm_of. rewrite <- map_app, forallb_map'. apply forallb_ext'. intros a. now rewrite !count_f.
+Qed.
+
+Lemma ballot_word_relabel (b order : list N) :
+  map (fun a => mem a (map f b)) (map f order) = map (fun a => mem a b) order.
+Proof. rewrite map_map. apply map_ext. intros a. apply amem_f. Qed.
+
+Theorem ci_check_relabel alts ballots order :
+  ci_check (map f alts) (map_rankings f ballots) (map f order) = ci_check alts ballots order.
+Proof.
+  unfold ci_check, map_rankings. rewrite perm_of_relabel, forallb_map'. f_equal.
+  apply forallb_ext'. intros b. now rewrite ballot_word_relabel.
+Qed.
+
+Theorem cei_check_relabel alts ballots order :
+  cei_check (map f alts) (map_rankings f ballots) (map f order) = cei_check alts ballots order.
+Proof.
+  unfold cei_check, map_rankings. rewrite perm_of_relabel, forallb_map'. f_equal.
+  apply forallb_ext'. intros b. now rewrite ballot_word_relabel.
+Qed.
+
+Lemma ballot_at_relabel ballots i : ballot_at (map (map f) ballots) i = map f (ballot_at ballots i).
+Proof. unfold ballot_at. change (@nil N) with (map f []) at 1. apply map_nth. Qed.
+
+Theorem vi_check_relabel alts ballots border :
+  vi_check (map f alts) (map_rankings f ballots) border = vi_check alts ballots border.
+Proof.
+  unfold vi_check, map_rankings. rewrite map_length, forallb_map'. f_equal. apply forallb_ext'. intros a.
+  f_equal. apply map_ext. intros i. now rewrite ballot_at_relabel, amem_f.
+Qed.
+
+Theorem vei_check_relabel alts ballots border :
+  vei_check (map f alts) (map_rankings f ballots) border = vei_check alts ballots border.
+Proof.
+  unfold vei_check, map_rankings. rewrite map_length, forallb_map'. f_equal. apply forallb_ext'. intros a.
+  f_equal. apply map_ext. intros i. now rewrite ballot_at_relabel, amem_f.
+Qed.
+
+Theorem wsc_check_relabel alts ballots border :
+  wsc_check (map f alts) (map_rankings f ballots) border = wsc_check alts ballots border.
+Proof.
+  unfold wsc_check, map_rankings. rewrite map_length, forallb_map'. f_equal. apply forallb_ext'. intros a.
+  rewrite forallb_map'. apply forallb_ext'. intros b.
+  f_equal. apply map_ext. intros i. now rewrite ballot_at_relabel, !amem_f.
+Qed.
+
+Lemma lookupQ_relabel a ap : lookupQ (f a) (map_keys f ap) = lookupQ a ap.
+Proof.
+  induction ap as [|[k v] t IH]; simpl; [reflexivity|]. rewrite eqb_f. destruct (N.eqb a k); [reflexivity|]. exact IH.
+Qed.
+
+Theorem de_check_relabel alts ballots vpr ap :
+  de_check (map f alts) (map_rankings f ballots) vpr (map_keys f ap) = de_check alts ballots vpr ap.
+Proof.
+  unfold de_check, map_rankings. rewrite map_length. f_equal.
+  revert vpr. induction ballots as [|b bs IH]; intros [|v vs]; simpl; try reflexivity.
+  rewrite IH. f_equal. rewrite forallb_map'. apply forallb_ext'. intros a.
+  rewrite lookupQ_relabel, amem_f. reflexivity.
+Qed.
+
+Lemma subset_relabel s t : subset (map f s) (map f t) = subset s t.
+Proof. unfold subset. rewrite forallb_map'. apply forallb_ext'. intros x. apply amem_f. Qed.
+Lemma set_eq_relabel s t : set_eq (map f s) (map f t) = set_eq s t.
+Proof. unfold set_eq. now rewrite !subset_relabel. Qed.
+Lemma meets_relabel s t : meets (map f s) (map f t) = meets s t.
+Proof. unfold meets. rewrite existsb_map'. apply existsb_ext'. intros x. apply amem_f. Qed.
+
+Lemma pairwise_relabel (r r' : list N -> list N -> bool) l :
+  (forall s t, r' (map f s) (map f t) = r s t) -> pairwise r' (map (map f) l) = pairwise r l.
+Proof.
+  intros E. induction l as [|x t IH]; simpl; [reflexivity|]. rewrite IH, forallb_map'. f_equal.
+  apply forallb_ext'. intros y. apply E.
+Qed.
+
+Theorem part_check_relabel ballots parts :
+  part_check (map_rankings f ballots) (map_rankings f parts) = part_check ballots parts.
+Proof.
+  unfold part_check, map_rankings. rewrite !forallb_map'. f_equal; [f_equal|].
+  - apply forallb_ext'. intros b. rewrite existsb_map'. apply existsb_ext'. intros s. apply set_eq_relabel.
+  - apply forallb_ext'. intros s. rewrite existsb_map'. apply existsb_ext'. intros b. apply set_eq_relabel.
+  - apply pairwise_relabel. intros s t. now rewrite set_eq_relabel, meets_relabel.
+Qed.
+
+Theorem part2_check_relabel alts ballots parts :
+  part2_check (map f alts) (map_rankings f ballots) (map_rankings f parts) = part2_check alts ballots parts.
+Proof.
+  unfold part2_check. rewrite part_check_relabel. unfold map_rankings. rewrite map_length, <- concat_map, set_eq_relabel.
+  reflexivity.
+Qed.
+
+(* reference deciders *)
+Theorem ci_decide_relabel alts ballots : ci_decide (map f alts) (map_rankings f ballots) = ci_decide alts ballots.
+Proof.
+  unfold ci_decide. rewrite Proofs.SP.perms_map, existsb_map'. apply existsb_ext'. intros order. apply ci_check_relabel.
+Qed.
+Theorem cei_decide_relabel alts ballots : cei_decide (map f alts) (map_rankings f ballots) = cei_decide alts ballots.
+Proof.
+  unfold cei_decide. rewrite Proofs.SP.perms_map, existsb_map'. apply existsb_ext'. intros order. apply cei_check_relabel.
+Qed.
+Theorem vi_decide_relabel alts ballots : vi_decide (map f alts) (map_rankings f ballots) = vi_decide alts ballots.
+Proof.
+  unfold vi_decide. unfold map_rankings at 2. rewrite map_length. apply existsb_ext'. intros b. apply vi_check_relabel.
+Qed.
+Theorem vei_decide_relabel alts ballots : vei_decide (map f alts) (map_rankings f ballots) = vei_decide alts ballots.
+Proof.
+  unfold vei_decide. unfold map_rankings at 2. rewrite map_length. apply existsb_ext'. intros b. apply vei_check_relabel.
+Qed.
+Theorem wsc_decide_relabel alts ballots : wsc_decide (map f alts) (map_rankings f ballots) = wsc_decide alts ballots.
+Proof.
+  unfold wsc_decide. unfold map_rankings at 2. rewrite map_length. apply existsb_ext'. intros b. apply wsc_check_relabel.
+Qed.
+
+Lemma index_of_relabel a l : index_of (f a) (map f l) = index_of a l.
+Proof. induction l as [|y ys IH]; simpl; [reflexivity|]. rewrite eqb_f. destruct (N.eqb a y); [reflexivity|]. now rewrite IH. Qed.
+Lemma alt_pos_relabel order a : alt_pos (map f order) (f a) = alt_pos order a.
+Proof. unfold alt_pos. now rewrite index_of_relabel. Qed.
+Lemma de_voter_relabel order b : de_voter (map f order) (map f b) = de_voter order b.
+Proof.
+  destruct b as [|a [|a' rest]]; simpl; try reflexivity.
+  - now rewrite alt_pos_relabel.
+  - rewrite !alt_pos_relabel, !map_map.
+    rewrite (map_ext (fun x => alt_pos (map f order) (f x)) (alt_pos order)) by (intros x; apply alt_pos_relabel).
+    reflexivity.
+Qed.
+Lemma de_construct_relabel ballots order :
+  de_construct (map_rankings f ballots) (map f order)
+  = (fst (de_construct ballots order), map_keys f (snd (de_construct ballots order))).
+Proof.
+  unfold de_construct, map_rankings, map_keys. simpl. f_equal.
+  - rewrite map_map. apply map_ext. intros b. apply de_voter_relabel.
+  - rewrite !map_map. apply map_ext. intros a. simpl. now rewrite alt_pos_relabel.
+Qed.
+
+Theorem de_decide_relabel alts ballots : de_decide (map f alts) (map_rankings f ballots) = de_decide alts ballots.
+Proof.
+  unfold de_decide. rewrite Proofs.SP.perms_map, existsb_map'. apply existsb_ext'. intros order.
+  rewrite de_construct_relabel. cbn [fst snd]. apply de_check_relabel.
+Qed.
+
+Theorem part_decide_relabel ballots : part_decide (map_rankings f ballots) = part_decide ballots.
+Proof.
+  unfold part_decide, map_rankings. rewrite forallb_map'. apply forallb_ext'. intros b1.
+  rewrite forallb_map'. apply forallb_ext'. intros b2. now rewrite set_eq_relabel, meets_relabel.
+Qed.
+
+Theorem part2_decide_relabel alts ballots :
+  part2_decide (map f alts) (map_rankings f ballots) = part2_decide alts ballots.
+Proof.
+  unfold part2_decide. rewrite part_decide_relabel. f_equal. unfold map_rankings.
+  destruct ballots as [|s bs]; [reflexivity|]. cbn [map].
+  change (map f s :: map (map f) bs) with (map (map f) (s :: bs)).
+  rewrite existsb_map'. apply existsb_ext'. intros t. rewrite forallb_map'. f_equal.
+  - apply forallb_ext'. intros b. now rewrite !set_eq_relabel.
+  - now rewrite <- map_app, !set_eq_relabel.
+Qed.
+
+(* the mirrored partition recognisers *)
+Lemma to_set_relabel l : to_set (map f l) = map f (to_set l).
+Proof. induction l as [|x t IH]; simpl; [reflexivity|]. rewrite amem_f, IH. destruct (mem x t); reflexivity. Qed.
+
+Lemma part_scan_relabel parts s : part_scan (map (map f) parts) (map f s) = part_scan parts s.
+Proof.
+  induction parts as [|p r IH]; simpl; [reflexivity|]. rewrite set_eq_relabel, meets_relabel, IH. reflexivity.
+Qed.
+
+Lemma part_loop_relabel ballots : forall parts,
+  part_loop (map (map f) ballots) (map (map f) parts) = option_map (map (map f)) (part_loop ballots parts).
+Proof.
+  induction ballots as [|b bs IH]; intros parts; simpl; [reflexivity|].
+  rewrite to_set_relabel, part_scan_relabel. destruct (part_scan parts (to_set b)) as [[|]|]; [| |reflexivity].
+  - rewrite <- IH. f_equal. now rewrite map_app.
+  - apply IH.
+Qed.
+
+Theorem is_part_relabel ballots : is_part (map_rankings f ballots) = option_map (map_rankings f) (is_part ballots).
+Proof. unfold is_part. apply (part_loop_relabel ballots []). Qed.
+
+Theorem is_2_part_relabel alts ballots :
+  is_2_part (map f alts) (map_rankings f ballots) = option_map (map_rankings f) (is_2_part alts ballots).
+Proof.
+  unfold is_2_part. rewrite is_part_relabel. destruct (is_part ballots) as [parts|]; [|reflexivity]. simpl.
+  unfold map_rankings. rewrite map_length. destruct (length parts =? 1); [reflexivity|].
+  unfold union_all. rewrite <- concat_map, !to_set_relabel, set_eq_relabel.
+  destruct ((length parts =? 2) && _); reflexivity.
+Qed.
+End ApprovalPart.
+
 End Inj.
+
+(* ============================================================================================================ *)
+(* Part 3 — storage order (no renaming involved)                                                                *)
+Section Reorder.
+Import PrefVerif.Model.C1P PrefVerif.Model.Approval.
+
+Theorem ci_check_reorder alts ballots ballots' order :
+  Permutation ballots ballots' -> ci_check alts ballots order = ci_check alts ballots' order.
+Proof. intros H. unfold ci_check. f_equal. now apply forallb_perm'. Qed.
+Theorem cei_check_reorder alts ballots ballots' order :
+  Permutation ballots ballots' -> cei_check alts ballots order = cei_check alts ballots' order.
+Proof. intros H. unfold cei_check. f_equal. now apply forallb_perm'. Qed.
+
+Theorem ci_decide_reorder alts ballots ballots' :
+  Permutation ballots ballots' -> ci_decide alts ballots = ci_decide alts ballots'.
+Proof. intros H. unfold ci_decide. apply existsb_ext'. intros o. now apply ci_check_reorder. Qed.
+Theorem cei_decide_reorder alts ballots ballots' :
+  Permutation ballots ballots' -> cei_decide alts ballots = cei_decide alts ballots'.
+Proof. intros H. unfold cei_decide. apply existsb_ext'. intros o. now apply cei_check_reorder. Qed.
+
+Theorem part_decide_reorder ballots ballots' :
+  Permutation ballots ballots' -> part_decide ballots = part_decide ballots'.
+Proof.
+  intros H. unfold part_decide. rewrite (forallb_perm' _ _ _ H). apply forallb_ext'. intros b1. now apply forallb_perm'.
+Qed.
+
+Lemma bool_eq_iff' (a b : bool) : (a = true <-> b = true) -> a = b.
+Proof. destruct a, b; intuition congruence. Qed.
+
+(* alternatives_name in another order: same verdicts *)
+Theorem ci_decide_alts_perm alts alts' ballots : Permutation alts alts' -> ci_decide alts ballots = ci_decide alts' ballots.
+Proof.
+  intros H. apply bool_eq_iff'. rewrite !Proofs.Approval.ci_decide_correct. unfold Proofs.Approval.CI, Proofs.Approval.CI_order.
+  split; intros (o & Ho & Hf); exists o; (split; [|exact Hf]).
+  - eapply perm_trans; [apply Permutation_sym; exact H|exact Ho].
+  - eapply perm_trans; eassumption.
+Qed.
+Theorem cei_decide_alts_perm alts alts' ballots : Permutation alts alts' -> cei_decide alts ballots = cei_decide alts' ballots.
+Proof.
+  intros H. apply bool_eq_iff'. rewrite !Proofs.Approval.cei_decide_correct. unfold Proofs.Approval.CEI, Proofs.Approval.CEI_order.
+  split; intros (o & Ho & Hf); exists o; (split; [|exact Hf]).
+  - eapply perm_trans; [apply Permutation_sym; exact H|exact Ho].
+  - eapply perm_trans; eassumption.
+Qed.
+Theorem vi_decide_alts_perm alts alts' ballots : Permutation alts alts' -> vi_decide alts ballots = vi_decide alts' ballots.
+Proof.
+  intros H. unfold vi_decide. apply existsb_ext'. intros b. unfold vi_check. f_equal. now apply forallb_perm'.
+Qed.
+Theorem vei_decide_alts_perm alts alts' ballots : Permutation alts alts' -> vei_decide alts ballots = vei_decide alts' ballots.
+Proof.
+  intros H. unfold vei_decide. apply existsb_ext'. intros b. unfold vei_check. f_equal. now apply forallb_perm'.
+Qed.
+Theorem wsc_decide_alts_perm alts alts' ballots : Permutation alts alts' -> wsc_decide alts ballots = wsc_decide alts' ballots.
+Proof.
+  intros H. unfold wsc_decide. apply existsb_ext'. intros b. unfold wsc_check. f_equal.
+  rewrite (forallb_perm' _ _ _ H). apply forallb_ext'. intros a. now apply forallb_perm'.
+Qed.
+
+(* rows of a 0/1 matrix in another order *)
+Theorem c1p_decide_rows_perm rows rows' nc : Permutation rows rows' -> c1p_decide rows nc = c1p_decide rows' nc.
+Proof. intros H. unfold c1p_decide. apply existsb_ext'. intros p. now apply forallb_perm'. Qed.
+Theorem c1p_check_rows_perm rows rows' nc perm : Permutation rows rows' -> c1p_check rows nc perm = c1p_check rows' nc perm.
+Proof. intros H. unfold c1p_check. f_equal. now apply forallb_perm'. Qed.
+End Reorder.
